@@ -133,7 +133,8 @@ def main():
                 for l in o.splitlines():
                     if l.startswith("VIOLATION") and "replay=" in l:
                         try:
-                            what = json.load(open(l.split("replay=")[1].split()[0])).get("what")
+                            rp = json.load(open(l.split("replay=")[1].split()[0]))
+                            what = rp.get("what") or rp.get("kind")
                         except Exception:  # noqa: BLE001
                             pass
                         break
@@ -142,7 +143,7 @@ def main():
                 for pid, r in ex.map(one, pids):
                     rec["results"][pid] = r
             rec["caught_by"] = [p for p, r in rec["results"].items() if r["exit"] == 1]
-            rec["with_failing_input"] = [p for p, r in rec["results"].items() if r["exit"] == 1 and r["what"] and "no property-failing input" not in r["what"]]
+            rec["with_failing_input"] = [p for p, r in rec["results"].items() if r["exit"] == 1 and r["what"] and "no property-failing input" not in r["what"] and "no-failing-input" not in r["what"]]
             rec["errors"] = [p for p, r in rec["results"].items() if r["exit"] not in (0, 1)]
             json.dump(rec, open(os.path.join(out, f"{survivors:03d}.json"), "w"), indent=1)
             summary.append(rec)
